@@ -2,7 +2,7 @@
 from harness import locs
 
 ID = "C17"
-MODULES = ["HeraProofs.Props.C17"]
+MODULES = ["HeraProofs.Props.C17", "HeraProofs.Props.C07"]
 GENERATED_DEPS = []
 EXPLANATION = ("Theorems: C17_token_in_quoted_line (for every text pre ++ tok ++ post with no line break in tok: the (line, column) "
                "that next_char's accounting yields after pre names an existing line of text.split('\\n'), and that line continues "
@@ -24,8 +24,8 @@ ASSUMPTIONS = ["which token a diagnostic is attached to (operand vs operation na
 def run(ctx):
     thorough, seed = ctx["thorough"], ctx["seed"]
     total = {"evaluations": 0, "disagreements": [], "violations": [], "streams": {}, "distribution": {}, "distinct_nontrivial": 0}
-    for name, rr in (("locs", locs.check(seed, 15000 if thorough else 1500)),
-                     ("locmodel", locs.check_model(seed + 1, 30000 if thorough else 3000))):
+    for name, rr in (("locs", locs.check(seed, 60000 if thorough else 1500)),
+                     ("locmodel", locs.check_model(seed + 1, 150000 if thorough else 3000))):
         total["evaluations"] += rr["evaluations"]
         total["distinct_nontrivial"] += rr.get("distinct", 0)
         total["disagreements"] += rr["disagreements"]
